@@ -1,4 +1,969 @@
-//! C12 monitor (not written yet).
-pub fn run(_ctx: &crate::ctx::Ctx, report: &mut vcore::Report) {
-    report.notes.push("stub".into());
+//! C12 – PLAIN text of every parameter value parses back to the same value.
+//!
+//! For every PLAIN-capable runtime type: `from_plain(to_plain(v)) == v` (NaN <-> NaN), and the
+//! text is recognised by an independent *spelling recogniser* for the spellings the property
+//! names (non-finite names, padded standard Base64, RFC 3339, true/false, hyphenated uuid).
+//! Generated enums and aliases are covered by the lab half, not here.
+use crate::ctx::{guarded, Ctx};
+use conjure_object::{
+    BearerToken, Bytes, DateTime, FromPlain, Plain, ResourceIdentifier, SafeLong, ToPlain, Utc, Uuid,
+};
+use serde_json::json;
+use vcore::models::{b64_decode, b64_encode, b64_shape};
+use vcore::rng::fnv;
+use vcore::text::*;
+use vcore::{Report, Rng};
+
+/// Values generated per case of a `ctx.cases` sub-monitor (amortises the per-case seeding).
+const BATCH: usize = 32;
+
+// ---------------------------------------------------------------------------------------------
+// generic round trip
+
+struct Probe<'a> {
+    rep: &'a mut Report,
+    sub: &'a str,
+    seed: u64,
+}
+
+impl Probe<'_> {
+    fn fail(&mut self, ty: &str, what: &str, shown: &str, text: Option<&str>, info: String) {
+        self.rep.violation(
+            self.sub,
+            self.seed,
+            format!("{}:{}", ty, what),
+            json!({"type": ty, "value": trunc(shown), "plain_text": text.map(trunc), "what": what, "info": trunc(&info)}),
+        );
+    }
+
+    /// One value: `to_plain`, the spelling recogniser (if the property names a spelling for the
+    /// type), `from_plain`, equality. Returns the text for further (observed-only) bookkeeping.
+    fn roundtrip<T>(
+        &mut self,
+        ty: &str,
+        v: &T,
+        shown: &str,
+        eq: impl Fn(&T, &T) -> bool,
+        show: impl Fn(&T) -> String,
+        spelling: Option<&dyn Fn(&str) -> Result<(), String>>,
+    ) -> Option<String>
+    where
+        T: Plain + FromPlain,
+        T::Err: std::fmt::Display,
+    {
+        self.rep.evaluations += 1;
+        self.rep.cell(&format!("type/{}", ty));
+        let text = match guarded(|| v.to_plain()) {
+            Ok(t) => t,
+            Err(p) => {
+                self.fail(ty, "to_plain-panic", shown, None, p);
+                return None;
+            }
+        };
+        if let Some(rec) = spelling {
+            self.rep.evaluations += 1;
+            if let Err(why) = rec(&text) {
+                self.fail(ty, "spelling", shown, Some(&text), why);
+            }
+        }
+        match guarded(|| T::from_plain(&text)) {
+            Err(p) => self.fail(ty, "from_plain-panic", shown, Some(&text), p),
+            Ok(Err(e)) => self.fail(ty, "rejects-own-text", shown, Some(&text), e.to_string()),
+            Ok(Ok(back)) => {
+                if !eq(v, &back) {
+                    self.fail(ty, "value-changed", shown, Some(&text), format!("parsed back as {}", show(&back)));
+                }
+            }
+        }
+        Some(text)
+    }
+}
+
+fn trunc(s: &str) -> String {
+    if s.chars().count() > 400 {
+        let t: String = s.chars().take(400).collect();
+        format!("{}…", t)
+    } else {
+        s.to_string()
+    }
+}
+
+// ---------------------------------------------------------------------------------------------
+// f64
+
+fn f64_eq(a: &f64, b: &f64) -> bool {
+    (a.is_nan() && b.is_nan()) || a == b
+}
+
+fn f64_show(v: &f64) -> String {
+    format!("{:?} (bits {:#018x})", v, v.to_bits())
+}
+
+fn mant_class(m: u64) -> &'static str {
+    const ALL: u64 = 0x000f_ffff_ffff_ffff;
+    match m {
+        0 => "zero",
+        1 => "one",
+        ALL => "all-ones",
+        0x0008_0000_0000_0000 => "top-bit",
+        m if m.count_ones() <= 3 => "sparse",
+        m if m.count_ones() >= 49 => "dense",
+        m if m.trailing_zeros() >= 26 => "short",
+        _ => "random",
+    }
+}
+
+fn f64_class(v: f64) -> &'static str {
+    let e = (v.to_bits() >> 52) & 0x7ff;
+    let m = v.to_bits() & 0x000f_ffff_ffff_ffff;
+    match (e, m) {
+        (0, 0) => "zero",
+        (0, _) => "subnormal",
+        (0x7ff, 0) => "infinite",
+        (0x7ff, _) => "nan",
+        _ => "normal",
+    }
+}
+
+fn check_f64(p: &mut Probe, v: f64) {
+    let bits = v.to_bits();
+    let e = (bits >> 52) & 0x7ff;
+    let sign = if bits >> 63 == 1 { "-" } else { "+" };
+    let class = f64_class(v);
+    p.rep.distinct.insert(fnv(&format!("f64:exp={}:{}:{}", e, sign, class)));
+    p.rep.distinct.insert(fnv(&format!("f64:mant={}:{}", mant_class(bits & 0x000f_ffff_ffff_ffff), class)));
+    p.rep.cell(&format!("f64/{}", class));
+    p.rep.cell(&format!("f64-exp/{:04}..", e / 128 * 128));
+    let spelling = |t: &str| -> Result<(), String> {
+        // The property names the spelling of the three non-finite values only.
+        let want = if v.is_nan() {
+            Some("NaN")
+        } else if v == f64::INFINITY {
+            Some("Infinity")
+        } else if v == f64::NEG_INFINITY {
+            Some("-Infinity")
+        } else {
+            None
+        };
+        match want {
+            Some(w) if t != w => Err(format!("non-finite value must be spelled {:?}", w)),
+            None if matches!(t, "NaN" | "Infinity" | "-Infinity") => {
+                Err("finite value spelled as a non-finite name".to_string())
+            }
+            _ => Ok(()),
+        }
+    };
+    let text = p.roundtrip("f64", &v, &f64_show(&v), f64_eq, f64_show, Some(&spelling));
+    if let Some(t) = text {
+        if class == "zero" && sign == "-" {
+            // the sign of zero is not claimed by `==`; count what happens
+            let kept = f64::from_plain(&t).map(|b| b.is_sign_negative()).unwrap_or(false);
+            p.rep.observed_only(if kept { "f64/neg-zero/sign-kept" } else { "f64/neg-zero/sign-lost" });
+        }
+        if class == "nan" {
+            p.rep.observed_only("f64/nan-payload-and-sign (not claimed)");
+        }
+    }
+}
+
+fn gen_f64(r: &mut Rng) -> f64 {
+    if r.bool() {
+        return hostile_f64(r);
+    }
+    // every exponent (incl. 0 = subnormal and 0x7ff = NaN payloads / infinities) x mantissa class
+    let e = r.below(0x800) as u64;
+    let m = match r.below(8) {
+        0 => 0,
+        1 => 1,
+        2 => 0x000f_ffff_ffff_ffff,
+        3 => 0x0008_0000_0000_0000,
+        4 => 1u64 << r.below(52),
+        5 => (r.u64() & 0x000f_ffff_ffff_ffff) & !((1u64 << r.below(52)) - 1),
+        6 => 0x000f_ffff_ffff_ffff & !(1u64 << r.below(52)),
+        _ => r.u64() & 0x000f_ffff_ffff_ffff,
+    };
+    let s = (r.u64() & 1) << 63;
+    f64::from_bits(s | (e << 52) | m)
+}
+
+// ---------------------------------------------------------------------------------------------
+// integers
+
+fn bitlen(mag: u64) -> u32 {
+    64 - mag.leading_zeros()
+}
+
+fn check_i32(p: &mut Probe, v: i32) {
+    let sign = if v < 0 { "-" } else { "+" };
+    let edge = match v {
+        i32::MIN => "min",
+        i32::MAX => "max",
+        0 => "zero",
+        _ => "",
+    };
+    p.rep.distinct.insert(fnv(&format!("i32:{}:bits={}:{}", sign, bitlen(v.unsigned_abs() as u64), edge)));
+    p.roundtrip("i32", &v, &v.to_string(), |a, b| a == b, |b| b.to_string(), None);
+}
+
+const SAFE_MAX: i64 = (1 << 53) - 1;
+
+fn check_safelong(p: &mut Probe, raw: i64) {
+    let v = match guarded(|| SafeLong::new(raw)) {
+        Ok(Ok(v)) => v,
+        _ => {
+            // construction is C15's business
+            p.rep.observed_only("safelong/constructor-refused");
+            return;
+        }
+    };
+    let sign = if raw < 0 { "-" } else { "+" };
+    let edge = match raw {
+        SAFE_MAX => "max",
+        x if x == -SAFE_MAX => "min",
+        0 => "zero",
+        _ => "",
+    };
+    p.rep.distinct.insert(fnv(&format!("safelong:{}:bits={}:{}", sign, bitlen(raw.unsigned_abs()), edge)));
+    p.roundtrip("safelong", &v, &raw.to_string(), |a, b| **a == **b, |b| (**b).to_string(), None);
+}
+
+fn gen_safe_raw(r: &mut Rng) -> i64 {
+    match r.below(6) {
+        0 => *r.pick(&[0, 1, -1, SAFE_MAX, -SAFE_MAX, SAFE_MAX - 1, -SAFE_MAX + 1]),
+        1 => r.range(-1000, 1000),
+        2 => {
+            let k = r.below(53) as u32;
+            let b = 1i64 << k;
+            (*r.pick(&[b, b - 1, b + 1, -b, -b + 1, -b - 1])).clamp(-SAFE_MAX, SAFE_MAX)
+        }
+        3 => {
+            let k = 1 + r.below(53) as u32;
+            let m = (r.u64() & ((1u64 << k) - 1)) as i64;
+            if r.bool() { m } else { -m }
+        }
+        _ => r.range(-SAFE_MAX, SAFE_MAX),
+    }
+}
+
+// ---------------------------------------------------------------------------------------------
+// bool, string, uuid
+
+fn check_bool(p: &mut Probe, v: bool) {
+    p.rep.distinct.insert(fnv(&format!("bool:{}", v)));
+    let spelling = |t: &str| -> Result<(), String> {
+        let want = if v { "true" } else { "false" };
+        if t == want {
+            Ok(())
+        } else {
+            Err(format!("expected lower-case {:?}", want))
+        }
+    };
+    p.roundtrip("bool", &v, &v.to_string(), |a, b| a == b, |b| b.to_string(), Some(&spelling));
+}
+
+fn string_class(s: &str) -> String {
+    let mut c = vec![];
+    if s.is_empty() {
+        c.push("empty");
+    }
+    if s.chars().any(|ch| ch.is_ascii_alphanumeric()) {
+        c.push("alnum");
+    }
+    if s.chars().any(|ch| ch.is_ascii_punctuation() || ch == ' ') {
+        c.push("punct");
+    }
+    if s.chars().any(|ch| ch.is_control()) {
+        c.push("control");
+    }
+    if s.chars().any(|ch| (ch as u32) >= 0x80 && (ch as u32) < 0x10000) {
+        c.push("bmp");
+    }
+    if s.chars().any(|ch| (ch as u32) >= 0x10000) {
+        c.push("astral");
+    }
+    if s.parse::<f64>().is_ok() || matches!(s, "true" | "false" | "null" | "Infinity" | "-Infinity") {
+        c.push("lookalike");
+    }
+    if s.starts_with(' ') || s.ends_with(' ') || s.ends_with('\n') {
+        c.push("edge-space");
+    }
+    c.join("+")
+}
+
+fn check_string(p: &mut Probe, v: &str) {
+    p.rep.distinct.insert(fnv(&format!("string:{}:len~{}", string_class(v), bitlen(v.len() as u64))));
+    let owned = v.to_string();
+    p.roundtrip("string", &owned, &format!("{:?}", v), |a, b| a == b, |b| format!("{:?}", b), None);
+    // the unsized impl (`Plain for str`) feeds the same parser
+    p.rep.evaluations += 1;
+    p.rep.cell("type/str");
+    match guarded(|| v.to_plain()) {
+        Err(e) => p.fail("str", "to_plain-panic", &format!("{:?}", v), None, e),
+        Ok(t) => match guarded(|| String::from_plain(&t)) {
+            Ok(Ok(b)) if b == v => {}
+            Ok(Ok(b)) => p.fail("str", "value-changed", &format!("{:?}", v), Some(&t), format!("parsed back as {:?}", b)),
+            Ok(Err(e)) => p.fail("str", "rejects-own-text", &format!("{:?}", v), Some(&t), e.to_string()),
+            Err(e) => p.fail("str", "from_plain-panic", &format!("{:?}", v), Some(&t), e),
+        },
+    }
+}
+
+/// 8-4-4-4-12 lower-case hexadecimal.
+fn uuid_shape(t: &str) -> Result<(), String> {
+    let b = t.as_bytes();
+    if b.len() != 36 {
+        return Err(format!("length {} instead of 36", b.len()));
+    }
+    for (i, c) in b.iter().enumerate() {
+        let hyphen = matches!(i, 8 | 13 | 18 | 23);
+        if hyphen && *c != b'-' {
+            return Err(format!("expected '-' at offset {}", i));
+        }
+        if !hyphen && !(c.is_ascii_digit() || (b'a'..=b'f').contains(c)) {
+            return Err(format!("expected a lower-case hex digit at offset {}", i));
+        }
+    }
+    Ok(())
+}
+
+fn check_uuid(p: &mut Probe, v: Uuid) {
+    let n = v.as_u128();
+    let class = match n {
+        0 => "nil".to_string(),
+        u128::MAX => "max".to_string(),
+        _ => format!("version-nibble={:x}:variant-nibble={:x}", (n >> 76) & 0xf, (n >> 60) & 0xf),
+    };
+    p.rep.distinct.insert(fnv(&format!("uuid:{}", class)));
+    // independent rendering of the 128 bits
+    let hex = format!("{:032x}", n);
+    let want = format!("{}-{}-{}-{}-{}", &hex[0..8], &hex[8..12], &hex[12..16], &hex[16..20], &hex[20..32]);
+    let spelling = |t: &str| -> Result<(), String> {
+        uuid_shape(t)?;
+        if t != want {
+            return Err(format!("hex digits are not those of the value ({})", want));
+        }
+        Ok(())
+    };
+    p.roundtrip("uuid", &v, &want, |a, b| a == b, |b| format!("{:032x}", b.as_u128()), Some(&spelling));
+}
+
+fn gen_uuid_local(r: &mut Rng) -> Uuid {
+    match r.below(8) {
+        0 => Uuid::nil(),
+        1 => Uuid::from_u128(u128::MAX),
+        2 => Uuid::from_u128(1u128 << r.below(128)),
+        3 => Uuid::from_u128(!(1u128 << r.below(128))),
+        4 => Uuid::from_u128(0xabcd_efab_cdef_abcd_efab_cdef_abcd_efab ^ (r.u64() as u128)),
+        _ => Uuid::from_u128(r.u128()),
+    }
+}
+
+// ---------------------------------------------------------------------------------------------
+// binary
+
+fn check_bytes(p: &mut Probe, data: &[u8]) {
+    let fill = if data.is_empty() {
+        "empty"
+    } else if data.iter().all(|b| *b == data[0]) {
+        "constant"
+    } else if data.iter().all(|b| b.is_ascii()) {
+        "ascii"
+    } else {
+        "mixed"
+    };
+    p.rep.distinct.insert(fnv(&format!("binary:len={}:{}", data.len().min(80), fill)));
+    p.rep.cell(&format!("binary-len/{:02}", data.len().min(80)));
+    p.rep.cell(&format!("binary-len-mod3/{}", data.len() % 3));
+    let want = b64_encode(data);
+    let spelling = |t: &str| -> Result<(), String> {
+        if !b64_shape(t) {
+            return Err("not ^[A-Za-z0-9+/]*={0,2}$ with length divisible by 4".to_string());
+        }
+        if t != want {
+            return Err(format!("independent encoder gives {}", want));
+        }
+        match b64_decode(t) {
+            Some(d) if d == data => Ok(()),
+            Some(_) => Err("independent decoder yields other bytes".to_string()),
+            None => Err("independent strict decoder rejects the text".to_string()),
+        }
+    };
+    let shown = format!("{} bytes {:02x?}", data.len(), data);
+    let v = Bytes::copy_from_slice(data);
+    p.roundtrip("binary", &v, &shown, |a, b| a == b, |b| format!("{:02x?}", &b[..]), Some(&spelling));
+    // the unsized impl (`Plain for [u8]`) must give the same text
+    p.rep.evaluations += 1;
+    p.rep.cell("type/[u8]");
+    match guarded(|| data.to_plain()) {
+        Err(e) => p.fail("[u8]", "to_plain-panic", &shown, None, e),
+        Ok(t) => {
+            if let Err(why) = spelling(&t) {
+                p.fail("[u8]", "spelling", &shown, Some(&t), why);
+            }
+            match guarded(|| Bytes::from_plain(&t)) {
+                Ok(Ok(b)) if b[..] == *data => {}
+                Ok(Ok(b)) => p.fail("[u8]", "value-changed", &shown, Some(&t), format!("{:02x?}", &b[..])),
+                Ok(Err(e)) => p.fail("[u8]", "rejects-own-text", &shown, Some(&t), e.to_string()),
+                Err(e) => p.fail("[u8]", "from_plain-panic", &shown, Some(&t), e),
+            }
+        }
+    }
+}
+
+fn gen_bytes(r: &mut Rng) -> Vec<u8> {
+    let n = match r.below(8) {
+        0 => r.below(4),
+        1 => 61 + r.below(4),
+        2 => 65 + r.below(200), // beyond the designed 0..=64 too
+        _ => r.below(65),
+    };
+    match r.below(6) {
+        0 => vec![*r.pick(&[0u8, 0xff, 0x3e, 0x3f, 0xfb, 0xfc, 0xfa, 0x80, 0x7f]); n],
+        1 => (0..n).map(|_| *r.pick(&[0xfbu8, 0xff, 0xfe, 0x3e, 0x3f, 0xf8, 0xef, 0xbe])).collect(),
+        2 => (0..n).map(|_| (0x20 + r.below(0x5f)) as u8).collect(),
+        _ => r.bytes(n),
+    }
+}
+
+// ---------------------------------------------------------------------------------------------
+// datetime
+
+const T_MIN: i64 = -62_167_219_200; // 0000-01-01T00:00:00Z
+const T_MAX: i64 = 253_402_300_799; // 9999-12-31T23:59:59Z
+
+/// Days since 1970-01-01 of a proleptic Gregorian civil date (own implementation).
+fn days_from_civil(y: i64, m: i64, d: i64) -> i64 {
+    let y = if m <= 2 { y - 1 } else { y };
+    let era = y.div_euclid(400);
+    let yoe = y - era * 400;
+    let mp = if m > 2 { m - 3 } else { m + 9 };
+    let doy = (153 * mp + 2) / 5 + d - 1;
+    let doe = yoe * 365 + yoe / 4 - yoe / 100 + doy;
+    era * 146_097 + doe - 719_468
+}
+
+fn civil_from_days(z: i64) -> (i64, i64, i64) {
+    let z = z + 719_468;
+    let era = z.div_euclid(146_097);
+    let doe = z - era * 146_097;
+    let yoe = (doe - doe / 1460 + doe / 36_524 - doe / 146_096) / 365;
+    let y = yoe + era * 400;
+    let doy = doe - (365 * yoe + yoe / 4 - yoe / 100);
+    let mp = (5 * doy + 2) / 153;
+    let d = doy - (153 * mp + 2) / 5 + 1;
+    let m = if mp < 10 { mp + 3 } else { mp - 9 };
+    (if m <= 2 { y + 1 } else { y }, m, d)
+}
+
+fn days_in_month(y: i64, m: i64) -> i64 {
+    match m {
+        1 | 3 | 5 | 7 | 8 | 10 | 12 => 31,
+        4 | 6 | 9 | 11 => 30,
+        _ => {
+            if (y % 4 == 0 && y % 100 != 0) || y % 400 == 0 {
+                29
+            } else {
+                28
+            }
+        }
+    }
+}
+
+/// RFC 3339 `date-time` recogniser and decoder:
+/// `YYYY-MM-DD(T|t)HH:MM:SS[.fraction](Z|z|(+|-)HH:MM)`. Returns the denoted instant as
+/// (seconds since the epoch, nanoseconds); `Err` says which production failed. Fraction digits
+/// beyond nanoseconds must be zero for the instant to be representable (else `Err`).
+fn rfc3339_decode(t: &str) -> Result<(i64, u32), String> {
+    let b = t.as_bytes();
+    let mut i = 0usize;
+    let num = |i: &mut usize, n: usize, what: &str| -> Result<i64, String> {
+        if *i + n > b.len() || !b[*i..*i + n].iter().all(|c| c.is_ascii_digit()) {
+            return Err(format!("expected {} digits for {} at offset {}", n, what, *i));
+        }
+        let v = b[*i..*i + n].iter().fold(0i64, |a, c| a * 10 + (*c - b'0') as i64);
+        *i += n;
+        Ok(v)
+    };
+    let lit = |i: &mut usize, set: &[u8], what: &str| -> Result<u8, String> {
+        match b.get(*i) {
+            Some(c) if set.contains(c) => {
+                *i += 1;
+                Ok(*c)
+            }
+            _ => Err(format!("expected {} at offset {}", what, *i)),
+        }
+    };
+    let y = num(&mut i, 4, "year")?;
+    lit(&mut i, b"-", "'-'")?;
+    let mo = num(&mut i, 2, "month")?;
+    lit(&mut i, b"-", "'-'")?;
+    let d = num(&mut i, 2, "day")?;
+    lit(&mut i, b"Tt", "'T'")?;
+    let h = num(&mut i, 2, "hour")?;
+    lit(&mut i, b":", "':'")?;
+    let mi = num(&mut i, 2, "minute")?;
+    lit(&mut i, b":", "':'")?;
+    let s = num(&mut i, 2, "second")?;
+    let mut nanos: u32 = 0;
+    if b.get(i) == Some(&b'.') {
+        i += 1;
+        let start = i;
+        while i < b.len() && b[i].is_ascii_digit() {
+            let k = i - start;
+            let digit = (b[i] - b'0') as u32;
+            if k < 9 {
+                nanos += digit * 10u32.pow(8 - k as u32);
+            } else if digit != 0 {
+                return Err("fraction finer than nanoseconds".to_string());
+            }
+            i += 1;
+        }
+        if i == start {
+            return Err("empty fraction".to_string());
+        }
+    }
+    let off = match lit(&mut i, b"Zz+-", "'Z' or a numeric offset")? {
+        b'Z' | b'z' => 0,
+        sign => {
+            let oh = num(&mut i, 2, "offset hour")?;
+            lit(&mut i, b":", "':'")?;
+            let om = num(&mut i, 2, "offset minute")?;
+            if oh > 23 || om > 59 {
+                return Err("offset out of range".to_string());
+            }
+            let o = oh * 3600 + om * 60;
+            if sign == b'-' { -o } else { o }
+        }
+    };
+    if i != b.len() {
+        return Err(format!("trailing text at offset {}", i));
+    }
+    if !(1..=12).contains(&mo) || d < 1 || d > days_in_month(y, mo) {
+        return Err("no such calendar date".to_string());
+    }
+    if h > 23 || mi > 59 || s > 60 {
+        return Err("no such time of day".to_string());
+    }
+    Ok((days_from_civil(y, mo, d) * 86_400 + h * 3600 + mi * 60 + s - off, nanos))
+}
+
+fn nanos_class(n: u32) -> &'static str {
+    if n == 0 {
+        "whole"
+    } else if n % 1_000_000 == 0 {
+        "millis"
+    } else if n % 1000 == 0 {
+        "micros"
+    } else if n == 999_999_999 {
+        "all-nines"
+    } else {
+        "nanos"
+    }
+}
+
+fn check_time(p: &mut Probe, secs: i64, nanos: u32) {
+    let shown = format!("(secs {}, nanos {})", secs, nanos);
+    let v = match guarded(|| DateTime::<Utc>::from_timestamp(secs, nanos)) {
+        Ok(Some(v)) => v,
+        _ => {
+            p.rep.observed_only("datetime/not-constructible");
+            return;
+        }
+    };
+    let in_years = (T_MIN..=T_MAX).contains(&secs);
+    let leap = nanos >= 1_000_000_000;
+    if !in_years || leap {
+        // Left open by the property (four-digit years only; chrono's leap-second encoding).
+        let what = if leap { "leap-second" } else if secs < T_MIN { "year<0000" } else { "year>9999" };
+        let ok = matches!(
+            guarded(|| DateTime::<Utc>::from_plain(&v.to_plain())),
+            Ok(Ok(b)) if b == v
+        );
+        p.rep.observed_only(&format!("datetime/{}/{}", what, if ok { "round-trips" } else { "does-not-round-trip" }));
+        return;
+    }
+    let (y, _, _) = civil_from_days(secs.div_euclid(86_400));
+    p.rep.distinct.insert(fnv(&format!("datetime:century={}:{}", y / 100, nanos_class(nanos))));
+    p.rep.cell(&format!("datetime-century/{:02}", y / 100));
+    p.rep.cell(&format!("datetime-fraction/{}", nanos_class(nanos)));
+    if secs == T_MIN && nanos == 0 {
+        p.rep.cell("datetime-end/0000-01-01T00:00:00Z");
+    }
+    if secs == T_MAX && nanos == 999_999_999 {
+        p.rep.cell("datetime-end/9999-12-31T23:59:59.999999999Z");
+    }
+    let spelling = |t: &str| -> Result<(), String> {
+        let (s, n) = rfc3339_decode(t)?;
+        if (s, n) != (secs, nanos) {
+            return Err(format!("RFC 3339 text denotes (secs {}, nanos {})", s, n));
+        }
+        Ok(())
+    };
+    p.roundtrip(
+        "datetime",
+        &v,
+        &shown,
+        |a, b| a == b && a.timestamp() == b.timestamp() && a.timestamp_subsec_nanos() == b.timestamp_subsec_nanos(),
+        |b| format!("(secs {}, nanos {})", b.timestamp(), b.timestamp_subsec_nanos()),
+        Some(&spelling),
+    );
+}
+
+fn gen_instant(r: &mut Rng) -> (i64, u32) {
+    let secs = match r.below(16) {
+        0 => *r.pick(&[T_MIN, T_MAX, 0, -1, 1, T_MIN + 1, T_MAX - 1]),
+        1 => r.range(-100_000, 100_000),
+        2 => r.range(1_500_000_000, 1_900_000_000),
+        3 => {
+            // first / last second of a random year
+            let y = r.range(0, 9999);
+            if r.bool() { days_from_civil(y, 1, 1) * 86_400 } else { days_from_civil(y + 1, 1, 1) * 86_400 - 1 }
+        }
+        4 => {
+            // around the end of February
+            let y = r.range(0, 9999);
+            days_from_civil(y, 3, 1) * 86_400 + r.range(-2 * 86_400, 86_400)
+        }
+        _ => r.range(T_MIN, T_MAX),
+    };
+    let nanos = match r.below(8) {
+        0 => 0,
+        1 => 999_999_999,
+        2 => (r.below(1000) * 1_000_000) as u32,
+        3 => (r.below(1_000_000) * 1000) as u32,
+        4 => *r.pick(&[1u32, 10, 100, 100_000_000, 1_000, 999_999_000, 999_000_000, 500_000_000]),
+        _ => r.below(1_000_000_000) as u32,
+    };
+    (secs, nanos)
+}
+
+// ---------------------------------------------------------------------------------------------
+// rids and tokens (grammar-driven)
+
+const LOWER: &[u8] = b"abcdefghijklmnopqrstuvwxyz";
+const LOWER_DIGIT: &[u8] = b"abcdefghijklmnopqrstuvwxyz0123456789";
+const LOWER_DIGIT_DASH: &[u8] = b"abcdefghijklmnopqrstuvwxyz0123456789-";
+const LOCATOR: &[u8] = b"abcdefghijklmnopqrstuvwxyzABCDEFGHIJKLMNOPQRSTUVWXYZ0123456789_.-";
+const TOKEN: &[u8] = b"abcdefghijklmnopqrstuvwxyzABCDEFGHIJKLMNOPQRSTUVWXYZ0123456789-._~+/";
+
+fn word(r: &mut Rng, first: &[u8], rest: &[u8], min: usize, max: usize) -> String {
+    let n = min + r.below(max - min + 1);
+    (0..n)
+        .map(|i| {
+            let set = if i == 0 { first } else { rest };
+            // bias to the rare characters of each class
+            if r.chance(1, 4) { set[set.len() - 1 - r.below(3.min(set.len()))] as char } else { set[r.below(set.len())] as char }
+        })
+        .collect()
+}
+
+fn gen_rid_text(r: &mut Rng) -> String {
+    let max = if r.chance(1, 10) { 40 } else { 8 };
+    format!(
+        "ri.{}.{}.{}.{}",
+        word(r, LOWER, LOWER_DIGIT_DASH, 1, max),
+        word(r, LOWER_DIGIT, LOWER_DIGIT_DASH, 0, max),
+        word(r, LOWER, LOWER_DIGIT_DASH, 1, max),
+        word(r, LOCATOR, LOCATOR, 1, 3 * max)
+    )
+}
+
+fn gen_token_text(r: &mut Rng) -> String {
+    let max = if r.chance(1, 10) { 300 } else { 40 };
+    let mut s = word(r, TOKEN, TOKEN, 1, max);
+    for _ in 0..r.below(4) {
+        s.push('=');
+    }
+    s
+}
+
+fn check_rid(p: &mut Probe, text: &str) {
+    let v = match guarded(|| ResourceIdentifier::new(text)) {
+        Ok(Ok(v)) => v,
+        _ => {
+            // validation is C16's business
+            p.rep.observed_only("rid/constructor-refused");
+            return;
+        }
+    };
+    let parts: Vec<&str> = text[3..].splitn(4, '.').collect();
+    p.rep.distinct.insert(fnv(&format!(
+        "rid:instance={}:locator-dots={}:dash={}:len~{}",
+        if parts[1].is_empty() { "empty" } else { "present" },
+        parts[3].matches('.').count().min(3),
+        text.contains('-'),
+        bitlen(text.len() as u64)
+    )));
+    p.roundtrip("rid", &v, text, |a, b| a == b && a.as_str() == b.as_str(), |b| b.as_str().to_string(), None);
+}
+
+fn check_token(p: &mut Probe, text: &str) {
+    let v = match guarded(|| BearerToken::new(text)) {
+        Ok(Ok(v)) => v,
+        _ => {
+            p.rep.observed_only("token/constructor-refused");
+            return;
+        }
+    };
+    let pad = text.len() - text.trim_end_matches('=').len();
+    p.rep.distinct.insert(fnv(&format!(
+        "token:pad={}:punct={}:len~{}",
+        pad,
+        text.chars().any(|c| "-._~+/".contains(c)),
+        bitlen(text.len() as u64)
+    )));
+    p.roundtrip("token", &v, text, |a, b| a == b && a.as_str() == b.as_str(), |b| b.as_str().to_string(), None);
+}
+
+// ---------------------------------------------------------------------------------------------
+// enumerated part: guarantees the class coverage the floors ask for at any seed and scale
+
+fn grid(rep: &mut Report, floors: bool) {
+    let mut exps = std::collections::BTreeSet::new();
+    let mut p = Probe { rep, sub: "grid", seed: 0 };
+    // f64: every exponent x both signs x fixed mantissas
+    for e in 0..0x800u64 {
+        for s in 0..2u64 {
+            for m in [0u64, 1, 0x0008_0000_0000_0000, 0x000f_ffff_ffff_ffff, 0x0005_5555_5555_5555, 0x0009_21fb_5444_2d18] {
+                let bits = (s << 63) | (e << 52) | m;
+                p.seed = bits;
+                exps.insert(e);
+                check_f64(&mut p, f64::from_bits(bits));
+            }
+        }
+    }
+    for v in [f64::MAX, f64::MIN, f64::MIN_POSITIVE, f64::EPSILON, 5e-324, 0.1, -0.1, 1e21, 1e-7, 1e15, 1e16, 1e17, 123456789012345680.0, 0.3, 2.5e-5, 9007199254740993.0] {
+        p.seed = v.to_bits();
+        check_f64(&mut p, v);
+    }
+    for k in -330..=310 {
+        let v: f64 = format!("1e{}", k).parse().unwrap();
+        p.seed = v.to_bits();
+        check_f64(&mut p, v);
+        check_f64(&mut p, -v);
+    }
+    // i32 boundary set
+    let mut ints: Vec<i32> = (-300..=300).collect();
+    ints.extend([i32::MIN, i32::MIN + 1, i32::MAX, i32::MAX - 1]);
+    for k in 0..31 {
+        let b = 1i32 << k;
+        ints.extend([b, b - 1, b.wrapping_add(1), -b, -b + 1, (-b).wrapping_sub(1)]);
+    }
+    for k in 0..=9 {
+        let t = 10i32.pow(k);
+        ints.extend([t, t - 1, -t, -t + 1]);
+    }
+    for v in ints {
+        p.seed = v as u32 as u64;
+        check_i32(&mut p, v);
+    }
+    // safelong boundary set
+    let mut longs: Vec<i64> = (-300..=300).collect();
+    for d in 0..=300 {
+        longs.extend([SAFE_MAX - d, -SAFE_MAX + d]);
+    }
+    for k in 0..53 {
+        let b = 1i64 << k;
+        longs.extend([b, b - 1, b + 1, -b, -b + 1, -b - 1]);
+    }
+    for k in 0..=15 {
+        let t = 10i64.pow(k);
+        longs.extend([t, t - 1, -t, -t + 1]);
+    }
+    for v in longs {
+        if v.abs() <= SAFE_MAX {
+            p.seed = v as u64;
+            check_safelong(&mut p, v);
+        }
+    }
+    check_bool(&mut p, true);
+    check_bool(&mut p, false);
+    // binary: every length 0..=64 (hence every length mod 3), every byte value at every
+    // position class, every 6-bit group value in every one of the four Base64 positions
+    for len in 0..=64usize {
+        for start in 0..256usize {
+            if len == 0 && start > 0 {
+                break;
+            }
+            p.seed = ((len as u64) << 16) | start as u64;
+            let run: Vec<u8> = (0..len).map(|k| (start + k) as u8).collect();
+            check_bytes(&mut p, &run);
+            let constant = vec![start as u8; len];
+            check_bytes(&mut p, &constant);
+            let stride: Vec<u8> = (0..len).map(|k| (start + 67 * k) as u8).collect();
+            check_bytes(&mut p, &stride);
+        }
+    }
+    // datetime: both ends of the claimed range, first and last representable instant of every year
+    check_time(&mut p, T_MIN, 0);
+    check_time(&mut p, T_MAX, 999_999_999);
+    for y in 0..=9999i64 {
+        p.seed = y as u64;
+        let first = days_from_civil(y, 1, 1) * 86_400;
+        let last = days_from_civil(y + 1, 1, 1) * 86_400 - 1;
+        check_time(&mut p, first, 0);
+        check_time(&mut p, last, 999_999_999);
+        // the day after 28 February, with a fraction of every length 1..=9 over the years
+        let k = (y % 9) as u32;
+        check_time(&mut p, days_from_civil(y, 2, 28) * 86_400 + 86_400 + 43_200 + y, 10u32.pow(k) * (1 + (y as u32 % 9)));
+    }
+    // observed-only: just outside the claimed range, far outside, chrono's leap-second encoding
+    for (s, n) in [
+        (T_MIN - 1, 999_999_999),
+        (T_MAX + 1, 0),
+        (T_MIN - 86_400 * 366, 0),
+        (T_MAX + 86_400 * 366, 0),
+        (-8_000_000_000_000, 5),
+        (8_000_000_000_000, 5),
+        (1_483_228_799, 1_500_000_000),
+        (59, 1_000_000_000),
+    ] {
+        check_time(&mut p, s, n);
+    }
+    // uuid: single-bit patterns
+    check_uuid(&mut p, Uuid::nil());
+    check_uuid(&mut p, Uuid::from_u128(u128::MAX));
+    for k in 0..128 {
+        check_uuid(&mut p, Uuid::from_u128(1u128 << k));
+        check_uuid(&mut p, Uuid::from_u128(0xabcd_efab_cdef_abcd_efab_cdef_abcd_efab_u128.rotate_left(k)));
+    }
+    // strings, rids, tokens with special shapes
+    for s in [
+        "", " ", "a", "NaN", "Infinity", "-Infinity", "true", "false", "null", "0", "-0", "1e3", "AA==", "a b", "a+b", "%2F",
+        "a/b", "é", "日本語", "😀", "\u{0}", "\n", "a\n", "\t", "\u{7f}", "\u{80}", "\u{ffff}", "\u{10ffff}", "\"", "\\",
+        " leading", "trailing ", "ri.a.b.c.d", "1970-01-01T00:00:00Z", "+1", "０",
+    ] {
+        check_string(&mut p, s);
+    }
+    for s in [
+        "ri.a..b.c", "ri.a.0.b.c", "ri.a.b.c.d", "ri.a-.0-.b-.-", "ri.a.b.c._", "ri.a.b.c..", "ri.a.b.c.d.e.f", "ri.a.b.c.A.Z_9",
+        "ri.z9-.9-z.z-9.Zz09_-.", "ri.service.instance.type.locator.with.dots", "ri.a..b....",
+    ] {
+        check_rid(&mut p, s);
+    }
+    for s in ["a", "A", "0", "-", ".", "_", "~", "+", "/", "a=", "a==", "a===", "-._~+/=", "AZaz09-._~+/==", "/=", "+="] {
+        check_token(&mut p, s);
+    }
+    if floors {
+        rep.floor("f64-every-exponent-both-signs", 2048, exps.len() as u64);
+    }
+}
+
+// ---------------------------------------------------------------------------------------------
+
+pub fn run(ctx: &Ctx, report: &mut Report) {
+    let floors = ctx.replay.is_none();
+    ctx.fixed(report, "grid", |rep| grid(rep, floors));
+
+    ctx.cases(report, "f64", ctx.n(12_000, 1_200_000), |seed, rep| {
+        let mut r = Rng::new(seed);
+        let mut p = Probe { rep, sub: "f64", seed };
+        for _ in 0..BATCH {
+            let v = gen_f64(&mut r);
+            p.rep.sample(2, || json!({"sub": "f64", "case_seed": seed, "value": f64_show(&v), "plain": v.to_plain()}));
+            check_f64(&mut p, v);
+        }
+    });
+    ctx.cases(report, "integers", ctx.n(6_000, 600_000), |seed, rep| {
+        let mut r = Rng::new(seed);
+        let mut p = Probe { rep, sub: "integers", seed };
+        for i in 0..BATCH {
+            if i % 2 == 0 {
+                let v = if r.chance(1, 3) { r.u64() as i32 } else { hostile_i32(&mut r) };
+                check_i32(&mut p, v);
+            } else {
+                let v = gen_safe_raw(&mut r);
+                check_safelong(&mut p, v);
+            }
+        }
+    });
+    ctx.cases(report, "binary", ctx.n(4_000, 400_000), |seed, rep| {
+        let mut r = Rng::new(seed);
+        let mut p = Probe { rep, sub: "binary", seed };
+        for _ in 0..BATCH {
+            let v = gen_bytes(&mut r);
+            p.rep.sample(2, || json!({"sub": "binary", "case_seed": seed, "bytes": format!("{:02x?}", v), "plain": v.to_plain()}));
+            check_bytes(&mut p, &v);
+        }
+    });
+    ctx.cases(report, "datetime", ctx.n(6_000, 600_000), |seed, rep| {
+        let mut r = Rng::new(seed);
+        let mut p = Probe { rep, sub: "datetime", seed };
+        for _ in 0..BATCH {
+            let (s, n) = gen_instant(&mut r);
+            p.rep.sample(2, || {
+                json!({"sub": "datetime", "case_seed": seed, "secs": s, "nanos": n,
+                       "plain": DateTime::<Utc>::from_timestamp(s, n).map(|v| v.to_plain())})
+            });
+            check_time(&mut p, s, n);
+        }
+        if r.chance(1, 16) {
+            // observed-only classes
+            let far = r.range(-8_000_000_000_000, 8_000_000_000_000);
+            check_time(&mut p, far, r.below(1_000_000_000) as u32);
+            let minute_end = r.range(T_MIN / 60, T_MAX / 60) * 60 + 59;
+            check_time(&mut p, minute_end, 1_000_000_000 + r.below(1_000_000_000) as u32);
+        }
+    });
+    ctx.cases(report, "names", ctx.n(3_000, 300_000), |seed, rep| {
+        let mut r = Rng::new(seed);
+        let mut p = Probe { rep, sub: "names", seed };
+        for i in 0..BATCH {
+            if i % 2 == 0 {
+                let t = gen_rid_text(&mut r);
+                p.rep.sample(1, || json!({"sub": "names", "case_seed": seed, "rid": t}));
+                check_rid(&mut p, &t);
+            } else {
+                let t = gen_token_text(&mut r);
+                check_token(&mut p, &t);
+            }
+        }
+    });
+    ctx.cases(report, "misc", ctx.n(3_000, 300_000), |seed, rep| {
+        let mut r = Rng::new(seed);
+        let mut p = Probe { rep, sub: "misc", seed };
+        for i in 0..BATCH {
+            match i % 4 {
+                0 | 1 => {
+                    let s = hostile_string(&mut r, 40);
+                    check_string(&mut p, &s);
+                }
+                2 => {
+                    let u = gen_uuid_local(&mut r);
+                    check_uuid(&mut p, u);
+                }
+                _ => {
+                    let b = r.bool();
+                    check_bool(&mut p, b);
+                }
+            }
+        }
+    });
+
+    if ctx.replay.is_none() {
+        report.floor_cells("types", "type/", 12);
+        report.floor_cells("f64-exponent-buckets", "f64-exp/", 16);
+        report.floor_cells("f64-classes", "f64/", 5);
+        report.floor_cells("binary-every-length-0..64", "binary-len/", 65);
+        report.floor_cells("binary-length-mod-3", "binary-len-mod3/", 3);
+        report.floor_cells("datetime-every-century", "datetime-century/", 100);
+        report.floor_cells("datetime-both-ends", "datetime-end/", 2);
+        report.floor_cells("datetime-fraction-classes", "datetime-fraction/", 5);
+        let d = report.distinct.len() as u64;
+        report.floor("distinct-classes", 4_800, d);
+        let e = report.evaluations;
+        report.floor("evaluations", 250_000, e);
+    }
+    report.notes.push(
+        "distinct = structural classes: f64 exponent x sign x class, f64 mantissa class, integer sign x bit length, \
+         binary length x fill, datetime century x fraction class, uuid version/variant nibbles, string / rid / token shape classes"
+            .into(),
+    );
+    report.notes.push(
+        "spelling recognisers (own code): NaN/Infinity/-Infinity; Base64 shape + independent encoder equality + strict decoder; \
+         RFC 3339 date-time decoder (own calendar arithmetic) must denote the same instant; true/false; 8-4-4-4-12 lower hex \
+         equal to the 128 bits. Not judged: sign of -0.0 and NaN payload (`==`/NaN-ness only), years outside 0000-9999, \
+         chrono leap-second encoding; generated enums/aliases are covered by the lab half"
+            .into(),
+    );
 }
